@@ -63,6 +63,7 @@ ATTR_NAMES = ['P', 'Q', 'note', 'Aa', 'b', 'Yy', 'H2']
 # names like any other: without strict `obj.copy = 5` adds an instance attribute (shadowing the method), with strict
 # it must raise.  Chosen so that shadowing them does not disturb the operations the histories use; read-only
 # properties (size, nbytes, a linker's LAGS / LEADS / sizes) are left out: assigning to them fails in `object`.
+REBINDABLE = ['name', '_LAGS', '_LEADS', 'aliases', 'preferred_names']
 CLASS_MEMBERS = ['copy', 'eval', 'exec', 'reindex', 'to_dataframe', '_ipython_key_completions_', 'NAMES', 'ENDOGENOUS',
                  'CHECK', 'CODE', 'solve', 'iter_periods', '_evaluate']
 
@@ -176,6 +177,11 @@ def rand_item(rng, names, n, labels):
     if r < 0.38:
         r2 = rng.random()
         name = nm() if r2 < 0.7 else rng.choice(ATTR_NAMES) if r2 < 0.85 else rng.choice(CLASS_MEMBERS)
+        if rng.random() < 0.05:
+            # keys fsic itself keeps in `__dict__` WITHOUT listing them in `_attributes` (a linker's `name`, `_LAGS`,
+            # `_LEADS`; a mixin's `aliases`, `preferred_names`): assigning rebinds the entry and registers the name
+            rb = rng.choice(REBINDABLE)     # (a linker's `name` is used as a keyword: it has to stay a string)
+            return {'op': 'setAttr', 'name': rb, 'v': enc_operand('core' if rb == 'name' else rand_scalar(rng, 'i'))}
         if rng.random() < 0.04:     # spelled like a variable's storage key (mostly of a variable that does not exist yet)
             name = '_' + rng.choice(NEW_NAMES + NEW_NAMES + known)
         if name in cc.INTERNAL_NAMES:
